@@ -15,6 +15,7 @@ import (
 	"runtime"
 	"runtime/debug"
 	"strings"
+	"sync/atomic"
 	"time"
 	"unsafe"
 )
@@ -48,6 +49,8 @@ type Task struct {
 	joiners []*Task
 	started bool
 	killed  bool
+	gid     int64 // goroutine id (identifies a task that comes back from an invisible wait)
+	extern  bool  // parked by the stall watchdog inside an operation the simulator does not see
 }
 
 type PanicInfo struct {
@@ -107,9 +110,13 @@ type World struct {
 	Stats     map[string]int
 	statK     []string
 	statV     []int
-	token     byte // address for the end-of-world happens-before edge (tasks -> Run's caller)
-	exclusive bool // only the current task runs (harness-side checks on a swapped file system)
-	Preempt   int  // number of times a runnable current task was switched out
+	token     byte  // address for the end-of-world happens-before edge (tasks -> Run's caller)
+	exclusive bool  // only the current task runs (harness-side checks on a swapped file system)
+	progress  int64 // bumped at every scheduling point (read by the stall watchdog)
+	anyExtern bool
+	Stalls    int // times the watchdog had to take the processor away from a task stuck in an invisible wait
+	finished  int32
+	Preempt   int // number of times a runnable current task was switched out
 }
 
 type timer struct {
@@ -227,9 +234,12 @@ func (w *World) Run(fn func()) {
 	main := w.newTask("main", false, fn)
 	w.cur = main
 	w.launch(main)
+	stopDog := make(chan struct{})
+	go w.watchdog(stopDog)
 	raceDisable()
 	main.wake <- struct{}{}
 	<-w.done
+	close(stopDog)
 	raceEnable()
 	// everything the tasks did happens before what the caller does next
 	raceAcquire(unsafe.Pointer(&w.token))
@@ -248,12 +258,20 @@ func (w *World) taskMain(t *Task) {
 	raceDisable()
 	<-t.wake
 	raceEnable()
+	t.gid = goid()
 	defer w.taskEnd(t)
 	defer raceReleaseMerge(unsafe.Pointer(&w.token))
 	if w.isDead() || w.isKilled(t) {
 		return
 	}
 	t.fn()
+}
+
+//go:norace
+func (w *World) finish() {
+	if atomic.CompareAndSwapInt32(&w.finished, 0, 1) {
+		close(w.done)
+	}
 }
 
 //go:norace
@@ -309,7 +327,7 @@ func (w *World) taskEnd(t *Task) {
 	}
 	if w.dead {
 		if w.killer == t {
-			close(w.done)
+			w.finish()
 		} else {
 			raceDisable()
 			close(t.exited)
@@ -325,14 +343,14 @@ func (w *World) taskEnd(t *Task) {
 		// a panic kills the process; and when the last client returns the
 		// simulated process ends: daemons are torn down.
 		w.killOthers(t)
-		close(w.done)
+		w.finish()
 		return
 	}
 	// hand over to somebody else; this goroutine ends
 	next := w.pickNext(false)
 	if next == nil {
 		// stuck: killOthers already done by pickNext
-		close(w.done)
+		w.finish()
 		return
 	}
 	w.cur = next
@@ -358,8 +376,8 @@ func (w *World) killOthers(self *Task) {
 	w.dead = true
 	w.killer = self
 	for _, t := range w.tasks {
-		if t == self || t.state == tDone {
-			continue
+		if t == self || t.state == tDone || t.extern {
+			continue // a task stuck in an invisible wait cannot be unwound: its goroutine is leaked
 		}
 		raceDisable()
 		if !t.started {
@@ -519,6 +537,9 @@ func (w *World) stuckExit(curOK bool) *Task {
 
 //go:norace
 func (w *World) reportStuck(kind string) {
+	if w.Stalls > 0 {
+		kind = "invisible-wait" // a task waits on something the simulator does not see and nobody can release it
+	}
 	d := &DeadlockInfo{Kind: kind}
 	for _, t := range w.tasks {
 		if t.state == tBlocked {
@@ -554,6 +575,9 @@ func (w *World) Yield(kind string) {
 	if w.dead {
 		return
 	}
+	if w.anyExtern {
+		w.reenter()
+	}
 	w.step(kind)
 	self := w.cur
 	next := w.pickNext(true)
@@ -569,6 +593,7 @@ func (w *World) Yield(kind string) {
 //go:norace
 func (w *World) step(kind string) {
 	w.Steps++
+	atomic.AddInt64(&w.progress, 1)
 	w.ev(kind, w.Steps, 0)
 	if w.Steps > w.MaxSteps {
 		w.OverSteps = true
@@ -663,4 +688,115 @@ func (w *World) permute(n int) []int { return w.mrng.Perm(n) }
 
 func (d *DeadlockInfo) String() string {
 	return d.Kind + ": " + strings.Join(d.Blocked, "; ")
+}
+
+// ---- stall watchdog ----------------------------------------------------------
+//
+// The scheduler only sees the synchronisation that goes through the shims. If
+// the code under test waits on something else (a raw channel, a select, a spin
+// on sync/atomic), the goroutine that holds the processor never reaches a yield
+// point and the whole world stops. The watchdog notices that no scheduling point
+// was passed for StallAfter of wall time, declares the current task blocked "in
+// an operation the simulator does not see" and lets the other tasks run: either
+// they release it (it re-enters the scheduler at its next shim call; the run is
+// then counted as inconclusive, because wall time took part in the schedule), or
+// everybody ends up blocked and the ordinary deadlock report names it.
+
+// StallAfter is the wall time without a scheduling point after which the
+// current task is considered stuck.
+var StallAfter = 4 * time.Second
+
+func goid() int64 {
+	var buf [64]byte
+	n := runtime.Stack(buf[:], false)
+	// "goroutine 123 [running]:"
+	var id int64
+	for i := len("goroutine "); i < n && buf[i] >= '0' && buf[i] <= '9'; i++ {
+		id = id*10 + int64(buf[i]-'0')
+	}
+	return id
+}
+
+//go:norace
+func (w *World) watchdog(stop chan struct{}) {
+	last := atomic.LoadInt64(&w.progress)
+	since := time.Now()
+	tick := time.NewTicker(200 * time.Millisecond)
+	defer tick.Stop()
+	for {
+		select {
+		case <-stop:
+			return
+		case <-tick.C:
+		}
+		now := atomic.LoadInt64(&w.progress)
+		if now != last {
+			last, since = now, time.Now()
+			continue
+		}
+		if time.Since(since) < StallAfter {
+			continue
+		}
+		if !w.rescue() {
+			return
+		}
+		since = time.Now()
+	}
+}
+
+// rescue takes the processor away from the current task, which is stuck. It
+// runs on the watchdog goroutine while no task passes scheduling points.
+//
+//go:norace
+func (w *World) rescue() bool {
+	if w.dead || atomic.LoadInt32(&w.finished) == 1 {
+		return false
+	}
+	t := w.cur
+	if t == nil || t.state == tDone {
+		return false
+	}
+	t.extern = true
+	t.state = tBlocked
+	t.on = "an operation the simulator does not see (raw channel, select, sync/atomic wait ...), entered " + fmt.Sprint(StallAfter) + " of wall time ago"
+	w.anyExtern = true
+	w.Stalls++
+	w.ev("stall", t.ID, 0)
+	next := w.pickNext(false)
+	if next == nil {
+		// everybody is blocked: reported as a deadlock by pickNext, world unwound
+		w.finish()
+		return false
+	}
+	w.cur = next
+	raceDisable()
+	next.wake <- struct{}{}
+	raceEnable()
+	return true
+}
+
+// reenter: a shim was entered while some task is marked stuck. If the caller
+// is that task (it was released after all), it gives the processor back and
+// waits to be scheduled like everybody else.
+//
+//go:norace
+func (w *World) reenter() {
+	g := goid()
+	if w.cur != nil && w.cur.gid == g {
+		return
+	}
+	for _, t := range w.tasks {
+		if t.gid == g && t.extern {
+			t.extern = false
+			t.on = ""
+			t.state = tRunnable
+			raceDisable()
+			<-t.wake
+			raceEnable()
+			if w.dead || t.killed {
+				runtime.Goexit()
+			}
+			return
+		}
+	}
 }
